@@ -903,6 +903,41 @@ func (r *EngineRunner) Exec(f []string) (res string) {
 			return "err " + EngErr(err) + r.takeEvents(false)
 		}
 		return "ok" + r.takeEvents(false)
+	case "bracers": // E bracers <prefix> <n> <val>: for n fresh keys, two goroutines Put the same key and value into the
+		// open batch at the same moment; then the key is deleted through the batch.  Sequentially: put, put, delete.
+		pre, _ := ParseTok(f[2])
+		n := atoi(f[3])
+		v, _ := ParseTok(f[4])
+		firstErr := ""
+		for i := 0; i < n; i++ {
+			k := append(append([]byte(nil), pre...), byte(i>>8), byte(i))
+			var wg sync.WaitGroup
+			start := make(chan struct{})
+			errs := make([]error, 2)
+			for g := 0; g < 2; g++ {
+				wg.Add(1)
+				go func(g int) {
+					defer wg.Done()
+					<-start
+					errs[g] = r.batch.Put(append([]byte(nil), k...), append([]byte(nil), v...))
+				}(g)
+			}
+			close(start)
+			wg.Wait()
+			r.ref.bput(r, k, v, errs[0])
+			r.ref.bput(r, k, v, errs[1])
+			err := r.batch.Delete(k)
+			r.ref.bdel(r, k, err)
+			for _, e := range []error{errs[0], errs[1], err} {
+				if e != nil && firstErr == "" {
+					firstErr = EngErr(e)
+				}
+			}
+		}
+		if firstErr != "" {
+			return "err " + firstErr + r.takeEvents(false)
+		}
+		return "ok" + r.takeEvents(false)
 	case "bdel":
 		k, _ := ParseTok(f[2])
 		err := r.batch.Delete(r.hk(k))
